@@ -39,8 +39,8 @@ Print Assumptions unknown_attr_ignored_partial.
 Theorem decoder_is_fieldwise_partial : forall sch unm d bs e st1 st2,
   all_supported (struct_fields d) = true ->
   (String.eqb (xmlname_tag d) "" || String.eqb (xmlname_tag d) (xname e)) = true ->
-  no_parents (struct_fields d) = true ->
-  nodup_strb (elem_names sch (struct_fields d)) = true ->
+  parents_ok (struct_fields d) = true ->
+  nodup_strb (elem_keys sch (struct_fields d)) = true ->
   Forall3 (fun f b r => absorb_attrs sch f b (xattrs e) = Ok r) (struct_fields d) bs st1 ->
   Forall3 (fun f b r => absorb_kids sch unm f b (xkids e) = Ok r) (struct_fields d) st1 st2 ->
   unmarshal_struct sch unm d (VStruct bs) e = Ok (VStruct st2).
